@@ -55,7 +55,9 @@ def _fname(ext=".rec"):
     _TMP[1] += 1
     d = _TMP[0] or os.path.join(core.SCRATCH_ROOT, "esutil-verif-c03.%d" % os.getpid())
     os.makedirs(d, exist_ok=True)
-    return os.path.join(d, "h%06d%s" % (_TMP[1], ext))
+    # a small pool of names, reused by all histories of the run (each history removes its file when it is done): state that
+    # the implementation carries across calls keyed by the file NAME (or name + size, name + mtime) collides
+    return os.path.join(d, "h%d%s" % (_TMP[1] % 3, ext))
 
 
 # ----------------------------------------------------------------------------------------------
@@ -410,7 +412,7 @@ class Builder:
         if not self.forms or self.r.random() < 0.5:
             return "plain"
         n = len(self.chunks[c]["rows"])
-        pool = ["recarray", "strided", "reversed", "readonly"]
+        pool = ["recarray", "strided", "reversed", "readonly", "inplace", "inplace"]
         if n == 1:
             pool += ["zerod", "zerod"]      # (a numpy.void record is a scalar, not an array: outside the statement)
         if n >= 2 and n % 2 == 0:
@@ -423,23 +425,26 @@ class Builder:
     def create(self, dl="base", h="gen", c=None):
         c = self.chunk() if c is None else c
         self.ops.append({"k": "create", "dl": self.dl if dl == "base" else dl, "c": c, "hdr": self.hdr(h),
-                         "view": self._view(c), "ctor": self._pick(["new", "new", "reuse", "Open"]), "kw": self._pick(["full", "minimal"])})
+                         "view": self._view(c), "ctor": self._pick(["new", "new", "reuse", "Open", "reuse2"]), "kw": self._pick(["full", "minimal"]),
+                         "hobj": self._pick(["new", "same"])})
 
     def again(self, c=None, h=None):
         c = self.chunk() if c is None else c
-        self.ops.append({"k": "again", "c": c, "hdr": self.hdr(h), "view": self._view(c), "kw": self._pick(["full", "minimal"])})
+        self.ops.append({"k": "again", "c": c, "hdr": self.hdr(h), "view": self._view(c), "kw": self._pick(["full", "minimal"]),
+                         "hobj": self._pick(["new", "same"])})
 
     def close(self):
         self.ops.append({"k": "close"})
 
     def reopen(self, dl="base"):
-        self.ops.append({"k": "reopen", "dl": self.dl if dl == "base" else dl, "ctor": self._pick(["new", "new", "reuse", "Open"]),
+        self.ops.append({"k": "reopen", "dl": self.dl if dl == "base" else dl, "ctor": self._pick(["new", "new", "reuse", "Open", "reuse2"]),
                          "kw": self._pick(["full", "minimal"])})
 
     def fn(self, append, dl="base", h=None, c=None):
         c = self.chunk() if c is None else c
         self.ops.append({"k": "fn", "append": bool(append), "dl": self.dl if dl == "base" else dl, "c": c, "hdr": self.hdr(h),
-                         "view": self._view(c), "via": self._pick(["sfile", "sfile", "swapped", "io"]), "kw": self._pick(["full", "minimal"])})
+                         "view": self._view(c), "via": self._pick(["sfile", "sfile", "swapped", "io"]), "kw": self._pick(["full", "minimal"]),
+                         "hobj": self._pick(["new", "same"])})
 
     def read(self, via=None):
         pool = ["fn", "fn", "cls", "slice", "io", "hdr"] + (["same", "same"] if SAME_HANDLE_READS else [])
@@ -533,6 +538,68 @@ def big_histories(r, dl, sizes):
     b.again(c=b.chunk(nrows=2)); b.close(); b.read()
     tag = "bin" if dl is None else {",": "csv", "\t": "tab", " ": "space"}[dl]
     return b.case("adv:big-chunks:" + tag)
+
+
+def fixed_chunk(fields, rows):
+    """a chunk with the given cell values (one tuple per row)"""
+    import numpy as np
+    a = np.zeros(len(rows), dtype=np_dtype_of(fields))
+    for i, row in enumerate(rows):
+        for (nm, ts, sh), v in zip(fields, row):
+            a[nm][i] = v
+    return {"dtype": fields, "rows": rows_of(a)}
+
+
+def same_size_overwrites(r, dl):
+    """a non-append write that replaces a file by one of EXACTLY the same number of bytes but another dtype / byte order /
+    field name / user header / delimiter, after the first file was read or opened for appending in this process; then
+    reads and appends that depend on the NEW header.  (Anything the implementation remembers about a path, keyed by what
+    did not change — name, size, field names, record size — shows here.)"""
+    textual = dl is not None
+    tag = "bin" if dl is None else {",": "csv", "\t": "tab", " ": "space"}[dl]
+    rows_i = [(r.randrange(1, 9), b"abc"), (r.randrange(1, 9), b"xyz"), (r.randrange(1, 9), b"END")]
+    rows_j = [(r.randrange(1, 9), b"qrs"), (r.randrange(1, 9), b"tuv"), (r.randrange(1, 9), b"wxy")]
+    base = [["x", "<i4", []], ["s", "|S3", []]]
+    variants = [
+        ("other-kind", [["x", "<f4", []], ["s", "|S3", []]], "{'run': 1}", dl),
+        ("other-byte-order", [["x", ">i4", []], ["s", "|S3", []]], "{'run': 1}", dl),
+        ("other-name", [["y", "<i4", []], ["s", "|S3", []]], "{'run': 1}", dl),
+        ("other-header", base, "{'run': 2}", dl),
+        ("other-header-and-kind", [["x", "<u4", []], ["s", "|S3", []]], "{'rum': 1}", dl),
+    ]
+    if textual:
+        variants += [("other-int-size", [["x", "<i2", []], ["s", "|S3", []]], "{'run': 1}", dl),
+                     ("other-delimiter", base, "{'run': 1}", {",": " ", " ": ",", "\t": ","}[dl])]
+    cs = []
+    for name, f2, h2, dl2 in variants:
+        if len(repr(dl2)) != len(repr(dl)):
+            continue
+        for warm in ("read", "reopen", "append-reopen"):
+            b = Builder(r, textual, dl, base)
+            c1 = len(b.chunks); b.chunks.append(fixed_chunk(base, rows_i))
+            c2 = len(b.chunks); b.chunks.append(fixed_chunk(f2, rows_j))
+            c3 = len(b.chunks); b.chunks.append(fixed_chunk(f2, rows_i[:2]))
+            cold = len(b.chunks); b.chunks.append(fixed_chunk(base, rows_j[:1]))
+            b.fn(False, c=c1, h=None); b.ops[-1]["hdr"] = "{'run': 1}"
+            if warm == "read":
+                b.read(r.choice(["fn", "hdr", "cls"]))
+            elif warm == "reopen":
+                b.reopen(); b.close()
+            else:
+                b.reopen(); b.again(c=cold); b.close(); b.read()
+                # ... and back to the size of the first file
+                b.fn(False, c=c1, h=None); b.ops[-1]["hdr"] = "{'run': 1}"; b.read()
+            if r.random() < 0.5:
+                b.fn(False, dl=dl2, c=c2, h=None)
+            else:
+                b.create(dl=dl2, c=c2, h=None); b.close()
+            b.ops[-2 if b.ops[-1]["k"] == "close" else -1]["hdr"] = h2
+            b.read()
+            b.fn(True, c=cold)          # the OLD dtype: compatible only if the dtype did not change
+            b.fn(True, c=c3); b.read()
+            b.reopen(); b.read("same"); b.again(c=c3); b.again(c=cold); b.close(); b.read()
+            cs.append(b.case("adv:same-size-overwrite:%s:%s:%s" % (name, warm, tag)))
+    return cs
 
 
 def random_history(r, maxops):
@@ -682,6 +749,8 @@ def run_history(case):
     import copy
     import esutil.io as eio
     fname = _fname()
+    if os.path.exists(fname):
+        os.remove(fname)
     sf = sfile.SFile()
     obs, texts = [], []
 
@@ -690,7 +759,10 @@ def run_history(case):
         minimal = o.get("kw") == "minimal"
         kw = {} if (minimal and o["dl"] is None) else {"delim": o["dl"]}
         ctor = o.get("ctor", "new")
-        if ctor == "reuse":                      # the same object is opened again (SFile.open closes first)
+        if ctor in ("reuse", "reuse2"):          # the same object is opened again (SFile.open closes first)
+            if ctor == "reuse2":                 # ... after it was used for ANOTHER file (text, other dtype, other header)
+                sf.open(decoy, mode="r+")
+                sf.write(decoy_data)
             sf.open(fname, mode=mode, **kw)
             return sf
         sf.close()
@@ -698,11 +770,38 @@ def run_history(case):
             return sfile.Open(fname, mode, **kw)
         return sfile.SFile(fname, mode, **kw) if not minimal else sfile.SFile(fname, mode=mode, **kw)
 
+    # a second file of another dtype / form: an object that is re-used for `fname` may have been used for it before
+    decoy = fname + ".decoy"
+    decoy_data = np.zeros(3, dtype=[("q", ">f8"), ("w", "|S5")])
+    if any(o.get("ctor") == "reuse2" for o in case["ops"]):
+        sfile.write(decoy, decoy_data, header={"decoy": True, "k": "other"}, delim=":")
+    arrays, hdict = {}, {}
+
+    def the_data(o):
+        """the chunk as the case asks for it; view 'inplace': the SAME ndarray object as an earlier write of this
+        history (same dtype and length), its contents overwritten in place"""
+        ch = case["chunks"][o["c"]]
+        a = make_data(ch)
+        if o.get("view") == "inplace":
+            key = (repr(ch["dtype"]), len(ch["rows"]))
+            if key in arrays:
+                arrays[key][...] = a
+                return arrays[key]
+            arrays[key] = a
+            return a
+        return form_data(a, o.get("view", "plain"))
+
     for o in case["ops"]:
         k = o["k"]
         hdr = ast.literal_eval(o["hdr"]) if o.get("hdr") is not None else None
-        hkw = {} if (o.get("kw") == "minimal" and hdr is None) else {"header": hdr}
-        data_in = form_data(make_data(case["chunks"][o["c"]]), o.get("view", "plain")) if "c" in o else None
+        if hdr is not None and o.get("hobj") == "same":      # the same dict OBJECT as before, changed in place
+            hdict.clear()
+            hdict.update(hdr)
+            hdr_in = hdict
+        else:
+            hdr_in = hdr
+        hkw = {} if (o.get("kw") == "minimal" and hdr is None) else {"header": hdr_in}
+        data_in = the_data(o) if "c" in o else None
         spy = _PPSpy()
         sfile.pprint = spy
         ans = ["ok"]
@@ -722,7 +821,7 @@ def run_history(case):
                 try:
                     sf = open_obj(o, "r+")
                 except Exception:
-                    if o.get("ctor") != "reuse":
+                    if o.get("ctor") not in ("reuse", "reuse2"):
                         sf = sfile.SFile()
                     raise
             elif k == "fn":
@@ -779,10 +878,11 @@ def run_history(case):
         sf.close()
     except Exception:  # noqa
         pass
-    try:
-        os.remove(fname)
-    except OSError:
-        pass
+    for p in (fname, decoy):
+        try:
+            os.remove(p)
+        except OSError:
+            pass
     return obs, texts
 
 
@@ -829,6 +929,7 @@ class History(Entry):
         self.texts = set()
         self.nmonitored = 0
         self.inexact_text = 0
+        self.same_size_rewrites = 0
 
     def cases(self, ctx, round=0):
         r = ctx.rng
@@ -836,6 +937,11 @@ class History(Entry):
         if round == 0:
             for dl in DELIMS:
                 cs += adversarial(r, dl is not None, dl)
+            sso = []
+            for dl in DELIMS:
+                sso += same_size_overwrites(r, dl)
+            # quick: every variant for binary, a third of the text ones (rotated by seed); thorough: all
+            cs += [c for i, c in enumerate(sso) if not ctx.quick() or c["family"].endswith(":bin") or i % 3 == ctx.seed % 3]
             cs.append(big_histories(r, None, [16385, 4097] if ctx.quick() else [16385, 4097, 70001, 32767]))
             for dl in ([DELIMS[1 + ctx.seed % 3]] if ctx.quick() else DELIMS[1:]):
                 cs.append(big_histories(r, dl, [16385, 3]))
@@ -856,6 +962,11 @@ class History(Entry):
             if t is not None:
                 self.texts.add(t["text"])
                 self.nmonitored += 1
+        for i, (o, ob) in enumerate(zip(c["ops"], obs)):
+            if i and (o["k"] == "create" or (o["k"] == "fn" and not o["append"])) and ob["ans"][0] == "ok" \
+                    and obs[i - 1]["disk"] is not None and ob["disk"] is not None and len(obs[i - 1]["disk"]) == len(ob["disk"]) \
+                    and obs[i - 1]["disk"] != ob["disk"]:
+                self.same_size_rewrites += 1
         tds = self.text_delims(c)
         accepted = set(o["c"] for o, ob in zip(c["ops"], obs) if "c" in o and ob["ans"][0] == "ok")
         chunks = []
@@ -1175,7 +1286,9 @@ def run(ctx, replay=None):
         ent.texts |= e.texts
         ent.nmonitored += e.nmonitored
         ent.inexact_text += e.inexact_text
+        ent.same_size_rewrites += e.same_size_rewrites
     ctx.count("monitor:header_ok headers", ent.nmonitored)
+    ctx.count("overwrites by a file of the same byte size and other contents (observed)", ent.same_size_rewrites)
     ctx.count("accepted text chunks whose own value round trip is not exact (C04's subject; per-chunk read-back demanded instead)", ent.inexact_text)
     fails = list(ent.monitor_failures)
     ctx.obligation("contract monitor header_ok (b)(c): eval(joined text) == formatted dict; delimiter, numpy.dtype(_DTYPE), user "
